@@ -37,6 +37,10 @@ type Violation struct {
 	Explore string                 `json:"explore"`
 	Choices []int                  `json:"choices"`
 	Replay  map[string]interface{} `json:"replay,omitempty"`
+	// Unconfirmed: the un-instrumented binary does not reproduce an in-process
+	// observation this violation rests on (harness inconsistency, not a finding).
+	Unconfirmed   string `json:"unconfirmed,omitempty"`
+	ConfirmedRuns int    `json:"confirmed_on_real_binary_runs,omitempty"`
 }
 
 type Exec struct {
@@ -54,6 +58,9 @@ type Exec struct {
 	notes    map[string]int64
 	explore  string
 	Replayed bool
+	// NoConfirm: the violations of this execution depend on an explorer-chosen map order or
+	// schedule, which a single run of the real binary cannot reproduce (the check confirms them itself)
+	NoConfirm bool
 }
 
 // Choose returns a value in [0,n). Choice 0 is the default answer. For classes with
@@ -209,6 +216,7 @@ type Worker struct {
 	Notes       map[string]int64
 	Explores    []ExploreStat
 	TimedOut    bool
+	Nondet      string
 	Info        map[string]interface{}
 	sampleEvery int64
 }
@@ -221,6 +229,7 @@ type ExploreOpts struct {
 
 func (w *Worker) runOne(name string, prefix []int, abortAt int, opt ExploreOpts, body func(x *Exec)) (x *Exec, aborted bool) {
 	x = &Exec{w: w, prefix: prefix, dev: map[string]int{}, budget: opt.Budgets, abortAt: abortAt, explore: name}
+	appRunLog = appRunLog[:0]
 	defer func() {
 		if r := recover(); r != nil {
 			if _, ok := r.(abortNotMine); ok {
@@ -314,8 +323,11 @@ func (w *Worker) Explore(name string, opt ExploreOpts, body func(x *Exec)) {
 					y, _ := w.runOne(name, x.choices(), 0, opt, body)
 					w.Audits++
 					if string(y.obs) != string(x.obs) || len(y.viol) != len(x.viol) {
-						fmt.Fprintf(os.Stderr, "HARNESS-NONDETERMINISM: %s choices %v: observation differs between two runs of the same choice vector\n--- first\n%q\n--- second\n%q\n", name, x.choices(), x.obs, y.obs)
-						os.Exit(2)
+						if w.Nondet == "" {
+							w.Nondet = fmt.Sprintf("%s choices %v: observation differs between two runs of the same choice vector\n--- first\n%q\n--- second\n%q", name, x.choices(), tailStr(string(x.obs), 800), tailStr(string(y.obs), 800))
+						}
+						w.Notes["determinism_audit_mismatches"]++
+						break
 					}
 				}
 			}
@@ -382,6 +394,17 @@ func (w *Worker) account(x *Exec, idx int, replay bool) {
 	for _, v := range x.viol {
 		w.ViolCount[v.Sig]++
 		if w.ViolCount[v.Sig] <= 3 {
+			// before a violation is believed, every application run of this execution is
+			// repeated on the un-instrumented binary in a fresh process
+			if x.NoConfirm {
+				// confirmed by the check's own means
+			} else if msg, n := w.confirmRuns(); msg != "" {
+				v.Unconfirmed = msg
+				w.Notes["violations_not_confirmed_by_real_binary"]++
+			} else if n > 0 {
+				v.ConfirmedRuns = n
+				w.Notes["violations_confirmed_by_real_binary"]++
+			}
 			w.Violations = append(w.Violations, v)
 		}
 	}
@@ -405,6 +428,7 @@ type Fragment struct {
 	Notes       map[string]int64       `json:"notes"`
 	Explores    []ExploreStat          `json:"explores"`
 	TimedOut    bool                   `json:"timed_out"`
+	Nondet      string                 `json:"nondeterminism,omitempty"`
 	Info        map[string]interface{} `json:"info"`
 	WallS       float64                `json:"wall_s"`
 }
@@ -458,7 +482,7 @@ func (w *Worker) finish(start time.Time) {
 		MaxDepth: w.MaxDepth, Audits: w.Audits, Obs: setToSlice(w.obsSet), Cases: setToSlice(w.caseSet), Nontriv: setToSlice(w.nontrivSet),
 		SetsCapped: w.obsSet.capped || w.caseSet.capped || w.nontrivSet.capped,
 		Samples:    w.Samples, Violations: w.Violations, ViolCount: w.ViolCount, Notes: w.Notes, Explores: w.Explores,
-		TimedOut: w.TimedOut, Info: w.Info, WallS: time.Since(start).Seconds()}
+		TimedOut: w.TimedOut, Nondet: w.Nondet, Info: w.Info, WallS: time.Since(start).Seconds()}
 	b, err := json.Marshal(fr)
 	if err != nil {
 		fatalHarness("marshal fragment: %v", err)
